@@ -94,10 +94,8 @@ impl World {
                     Ok(Some(usize::MAX)) if self.aa.verif_state().1 == 1 => ("max", 0i64),
                     Ok(Some(c)) => ("credit", c as i64),
                     Ok(None) => ("none", 0),
-                    Err(s) => {
-                        assert_eq!(s, Signals::CREDIT, "balance() asked to wait for {s:?}");
-                        ("wait", 0)
-                    }
+                    Err(s) if s == Signals::CREDIT => ("wait", 0),
+                    Err(_) => ("wait-for-other-signal", 0),
                 };
                 self.last_balance = r.ok().flatten();
                 self.obs(json!({"ev": "balance", "r": kind, "v": v}), w0)
@@ -129,7 +127,11 @@ impl World {
             "seg" => {
                 // PacketsAssembler::new + assemble: Constraints::new(balance, quota); per packet constrain + commit
                 let (quota, buf, pkts) = seg_case(arg(1));
-                let limit = self.last_balance.expect("seg without a balance");
+                // the generator explores both debit outcomes; where the real object went the other way the burst
+                // task holds no balance here and simply does not assemble anything
+                let Some(limit) = self.last_balance else {
+                    return self.obs(json!({"ev": "noop", "op": "seg"}), w0);
+                };
                 let mut cons = Constraints::new(limit, quota.unwrap_or(usize::MAX));
                 let mut buffer = vec![0u8; buf];
                 let mut off = 0usize;
